@@ -1,11 +1,227 @@
 package main
 
+import (
+	"encoding/json"
+	"fmt"
+	"os"
+	"os/exec"
+	"path/filepath"
+	"sort"
+	"strings"
+	"sync"
+)
+
+// The self-test judges the checker, not the repository: every catalogued single-construct
+// mutation is applied to a scratch copy of the *current* /repo sources, must still type-check,
+// and the rule named in the catalogue must report it; every catalogued behaviour-preserving
+// variant must stay silent. A mutation whose anchor text no longer occurs is skipped.
+
+type mutation struct {
+	Name   string            `json:"name"`
+	File   string            `json:"file"`
+	Old    string            `json:"old"`
+	New    string            `json:"new"`
+	Edits  []mutEdit         `json:"edits,omitempty"` // additional edits (other files / sites)
+	Expect map[string]string `json:"expect,omitempty"` // property -> substring of a violated obligation key
+	Silent []string          `json:"silent,omitempty"` // properties that must stay silent
+	Note   string            `json:"note,omitempty"`
+}
+
+type mutEdit struct {
+	File string `json:"file"`
+	Old  string `json:"old"`
+	New  string `json:"new"`
+}
+
 type selfTestFailure struct{ Name, Detail string }
 type selfTestResult struct {
 	Summary  map[string]any
 	Failures []selfTestFailure
 }
 
+func loadCatalogue(dir string) ([]mutation, error) {
+	files, _ := filepath.Glob(filepath.Join(dir, "*.json"))
+	sort.Strings(files)
+	var all []mutation
+	for _, f := range files {
+		b, err := os.ReadFile(f)
+		if err != nil {
+			return nil, err
+		}
+		var ms []mutation
+		if err := json.Unmarshal(b, &ms); err != nil {
+			return nil, fmt.Errorf("%s: %w", f, err)
+		}
+		all = append(all, ms...)
+	}
+	return all, nil
+}
+
+func copyRepo(src, dst string) error {
+	ents, err := os.ReadDir(src)
+	if err != nil {
+		return err
+	}
+	if err := os.MkdirAll(dst, 0o775); err != nil {
+		return err
+	}
+	for _, e := range ents {
+		n := e.Name()
+		if e.IsDir() || strings.HasSuffix(n, "_test.go") || !(strings.HasSuffix(n, ".go") || n == "go.mod" || n == "go.sum") {
+			continue
+		}
+		b, err := os.ReadFile(filepath.Join(src, n))
+		if err != nil {
+			return err
+		}
+		if err := os.WriteFile(filepath.Join(dst, n), b, 0o664); err != nil {
+			return err
+		}
+	}
+	return nil
+}
+
+func applyEdit(dir string, e mutEdit) (bool, error) {
+	path := filepath.Join(dir, e.File)
+	b, err := os.ReadFile(path)
+	if err != nil {
+		return false, nil
+	}
+	s := string(b)
+	if strings.Count(s, e.Old) != 1 {
+		return false, nil
+	}
+	s = strings.Replace(s, e.Old, e.New, 1)
+	return true, os.WriteFile(path, []byte(s), 0o664)
+}
+
+type mutOutcome struct {
+	m       mutation
+	prop    string
+	skipped string
+	fail    string
+	fired   []string
+}
+
 func runSelfTest(repo, dir, property string) selfTestResult {
-	return selfTestResult{Summary: map[string]any{"note": "self-test catalogue not built yet"}}
+	res := selfTestResult{Summary: map[string]any{}}
+	cat, err := loadCatalogue(dir)
+	if err != nil {
+		res.Failures = append(res.Failures, selfTestFailure{"catalogue", "cannot read self-test catalogue: " + err.Error()})
+		return res
+	}
+	type job struct {
+		m    mutation
+		prop string
+		want string // "" = silent
+	}
+	var jobs []job
+	for _, m := range cat {
+		if k, ok := m.Expect[property]; ok {
+			jobs = append(jobs, job{m, property, k})
+		}
+		for _, s := range m.Silent {
+			if s == property {
+				jobs = append(jobs, job{m, property, ""})
+			}
+		}
+	}
+	tmpRoot, err := os.MkdirTemp("", "rapidlint-selftest-")
+	if err != nil {
+		res.Failures = append(res.Failures, selfTestFailure{"tmp", err.Error()})
+		return res
+	}
+	defer os.RemoveAll(tmpRoot)
+
+	self, _ := os.Executable()
+	outcomes := make([]mutOutcome, len(jobs))
+	sem := make(chan struct{}, 8)
+	var wg sync.WaitGroup
+	for i, j := range jobs {
+		wg.Add(1)
+		go func(i int, j job) {
+			defer wg.Done()
+			sem <- struct{}{}
+			defer func() { <-sem }()
+			o := mutOutcome{m: j.m, prop: j.prop}
+			defer func() { outcomes[i] = o }()
+			d := filepath.Join(tmpRoot, fmt.Sprintf("m%d", i))
+			defer os.RemoveAll(d)
+			if err := copyRepo(repo, d); err != nil {
+				o.fail = "copy: " + err.Error()
+				return
+			}
+			edits := append([]mutEdit{{j.m.File, j.m.Old, j.m.New}}, j.m.Edits...)
+			for _, e := range edits {
+				ok, err := applyEdit(d, e)
+				if err != nil {
+					o.fail = "apply: " + err.Error()
+					return
+				}
+				if !ok {
+					o.skipped = "anchor text no longer occurs exactly once in " + e.File
+					return
+				}
+			}
+			cmd := exec.Command(self, "-repo", d, "-property", j.prop, "-tier", "quick", "-known", "")
+			cmd.Env = append(os.Environ(), "VERIF_TIER=quick")
+			out, _ := cmd.CombinedOutput()
+			text := string(out)
+			if strings.Contains(text, "-LOAD:") || strings.Contains(text, "cannot load") {
+				o.skipped = "mutant does not load/type-check on the current tree"
+				return
+			}
+			for _, line := range strings.Split(text, "\n") {
+				line = strings.TrimSpace(line)
+				if strings.HasPrefix(line, "VIOLATED ") || strings.HasPrefix(line, "UNDECIDED ") {
+					f := strings.Fields(line)
+					if len(f) > 1 {
+						o.fired = append(o.fired, f[1])
+					}
+				}
+			}
+			if j.want == "" {
+				if len(o.fired) > 0 {
+					o.fail = "behaviour-preserving variant raised: " + strings.Join(o.fired, ", ")
+				}
+				return
+			}
+			hit := false
+			for _, k := range o.fired {
+				if strings.Contains(k, j.want) {
+					hit = true
+				}
+			}
+			if !hit {
+				o.fail = fmt.Sprintf("mutation not reported under %q (reported: %v)", j.want, o.fired)
+			}
+		}(i, j)
+	}
+	wg.Wait()
+	ran, skipped, fired, silent := 0, 0, 0, 0
+	var details []map[string]any
+	for i, o := range outcomes {
+		d := map[string]any{"mutation": o.m.Name, "property": o.prop}
+		switch {
+		case o.skipped != "":
+			skipped++
+			d["result"] = "selftest-skipped: " + o.skipped
+		case o.fail != "":
+			ran++
+			d["result"] = "FAILED: " + o.fail
+			res.Failures = append(res.Failures, selfTestFailure{o.m.Name, o.fail})
+		default:
+			ran++
+			if jobs[i].want == "" {
+				silent++
+				d["result"] = "silent as expected"
+			} else {
+				fired++
+				d["result"] = "reported as expected: " + jobs[i].want
+			}
+		}
+		details = append(details, d)
+	}
+	res.Summary = map[string]any{"mutants_run": ran, "skipped": skipped, "reported_as_expected": fired, "silent_as_expected": silent, "failures": len(res.Failures), "details": details}
+	return res
 }
